@@ -239,6 +239,18 @@ def split_items(st, m, lo, hi):
         if i >= hi:
             break
         it.hdr = i
+        # item-level macro invocation `name! { .. }` / `name!( .. );` (e.g. define_signal_enum!): an item of its own
+        if st[i].kind == 'id' and st[i].text != 'macro_rules' and i + 2 < hi and st[i + 1].text == '!' and st[i + 2].text in OPEN:
+            it.kw = 'macrocall'
+            it.name = st[i].text
+            it.kwidx = i
+            end = m[i + 2]
+            if end + 1 < hi and st[end + 1].text == ';':
+                end += 1
+            it.last = end
+            items.append(it)
+            i = end + 1
+            continue
         # find keyword
         k = i
         while k < hi and not (st[k].kind == 'id' and st[k].text in ITEM_KW):
